@@ -22,6 +22,7 @@ import (
 	"google.golang.org/protobuf/types/descriptorpb"
 	"google.golang.org/protobuf/types/dynamicpb"
 
+	"verifharness/chain"
 	"verifharness/gen"
 	"verifharness/pbt"
 )
@@ -207,12 +208,40 @@ func gogoSigningContext(app *signing.Context) (*signing.Context, error) {
 	return gogoCtx, gogoCtxErr
 }
 
+var (
+	envOnce sync.Once
+	envVal  *chain.Env
+	envErr  error
+)
+
+// safeEnv builds the app once; an app that cannot be built (runtime validates every Msg service's signer
+// declarations while wiring the modules) is a violation of its own, reported once.
+func safeEnv() (*chain.Env, error) {
+	envOnce.Do(func() {
+		defer func() {
+			if p := recover(); p != nil {
+				msg := fmt.Sprint(p)
+				if len(msg) > 1500 {
+					msg = msg[:1500]
+				}
+				envErr = pbt.Failf("C20/signers-app-cannot-be-built", "building the app with all ten modules panics: %s", msg)
+			}
+		}()
+		envVal = gen.Env()
+	})
+	return envVal, envErr
+}
+
 func checkSigner(it signerItem) (error, bool, []string) {
 	u := loadUniverse()
 	if u.err != nil {
 		return pbt.Failf("harness/universe", "%v", u.err), false, nil
 	}
-	app := gen.Env().App
+	env, eerr := safeEnv()
+	if eerr != nil {
+		return eerr, false, nil
+	}
+	app := env.App
 	ir := app.InterfaceRegistry()
 	url := "/" + it.Request
 	classes := []string{"method"}
@@ -365,6 +394,10 @@ func TestC20Signers(t *testing.T) {
 	st := pbt.NewStats("C20", "signers", signersRule)
 	st.Exhaustive = true
 	defer st.Flush()
+	if _, err := safeEnv(); err != nil {
+		p := writeViolationFile("signers", 0, items[0], err)
+		t.Fatalf("VIOLATION-FILE %s\n%v", p, err)
+	}
 	for i, it := range items {
 		for _, f := range it.Exclude {
 			for _, ff := range fieldFindings {
